@@ -86,7 +86,7 @@ def run_ground(res, repo, task, findings):
     return out
 
 
-def run_frames(res, repo, rules, table, findings_known, replay=None):
+def run_frames(res, repo, rules, table, findings_known, replay=None, only_modules=None):
     """syntactic frame obligations: one obligation per (rule, module); a finding outside the allow-list refutes it"""
     from .frames import analyse
     from contracts.frames import allowed
@@ -94,6 +94,8 @@ def run_frames(res, repo, rules, table, findings_known, replay=None):
     fs = [f for f in fs if f.rule in rules]
     per = {}
     for m in mods:
+        if only_modules and m not in only_modules:
+            continue
         for r in rules:
             per[(r, m)] = []
     bad = []
@@ -340,7 +342,7 @@ def main(argv):
         if P.get('frames'):
             from contracts import frames as CF
             fr = P['frames']
-            run_frames(res, a.repo, fr['rules'], getattr(CF, fr['allow']), findings, fr.get('replay'))
+            run_frames(res, a.repo, fr['rules'], getattr(CF, fr['allow']), findings, fr.get('replay'), fr.get('modules'))
         for spec in P.get('bounded', []):
             run_bounded(res, a.repo, spec, seed, a.tier)
         for task in P.get('ground', []):
